@@ -336,6 +336,16 @@ def c06f(ctx):
     if bad:
         ctx.fail(o, Site(c, bad[0], 0), "register_callee can return for a query caller without having recorded the callee: the wait-for edge of that call is missing from "
                  "the graph the cycle probe searches (a repairing caller waits on its callee like an executing one)")
+    # register_calee itself: the fast `already registered` exit is taken exactly when the callee IS in the table
+    rc = ctx.touch(prog.body("QueryComputing::register_calee"))
+    ent = rc.calls_to(r"scc::hash_map::HashMap::<K, V, H>::entry_sync$")
+    if len(ent) != 1:
+        ctx.fail(o, Site(rc, 0, 0), "anchor missing: entry_sync in QueryComputing::register_calee")
+    else:
+        g = df.guarded_by(rc, ent[0].bb, lambda cd: cd.kind == "call" and cd.callee.endswith("contains_sync"))
+        pol = {((v != 0) != cd.negated) for sb, v, tb, cd in g if v != "otherwise"} | {(not cd.negated) for sb, v, tb, cd in g if v == "otherwise"}
+        if pol and pol != {False}:
+            ctx.fail(o, ent[0], "QueryComputing::register_calee inserts the callee only when it is ALREADY in the table (the `contains` shortcut is inverted): nothing is ever registered")
     # and the token it hands back un-registers exactly that callee of exactly that computing record
     ag = c.aggregates(r"register_callee::UndoRegisterCallee$") or c.calls_to(r"UndoRegisterCallee::new$")
     if not ag:
